@@ -87,7 +87,10 @@ func init() {
 			ctx context.Context,
 			err error,
 		) (msg string, safeDetails []string, payload proto.Message) {
-			return "", nil, nil
+			// The message is what a receiver that does not know
+			// this type displays; the decoder below rebuilds the
+			// error from its causes and ignores it.
+			return err.Error(), nil, nil
 		},
 	)
 	errbase.RegisterMultiCauseDecoder(
